@@ -217,3 +217,70 @@ class OnS5F3:
             "known-alarm-takes-the-state": implies(known, lambda: a[alid].enabled == on),
             "nothing-else-changes": forall(-2 ** 63, 2 ** 64, lambda k: a[k].set == a0[k].set and implies(k != alid or not known, lambda: a[k].enabled == a0[k].enabled)),
         }
+
+
+# ===================================================================== S5F5: listing the requested alarms (bounded shape)
+class _DataItems55:
+    ALCD = DI.ALCD
+
+
+class _StreamsFunctions55(StreamsFunctions):
+    data_items = _DataItems55
+
+
+@contract("secsgem.secs.functions.streams_functions:StreamsFunctions.decode", "C13", name="DecodeS5F5Abs")
+class DecodeS5F5Abs:
+    """ASSUMED (C03): the decoded S5F5 is its ALID vector (ghost: the request the unit quantifies over)."""
+
+    abstract = True
+    returns = Same("self.g_req")
+
+
+@contract("spec.ext:AbsItem.get", "C13", name="ItemGetIdsAbs")
+class ItemGetIdsAbs:
+    """ASSUMED: the decoded vector item returns the list of the ids it carries."""
+
+    abstract = True
+    returns = Same("self.g_ids")
+
+
+@contract("secsgem.gem.alarm_capability:AlarmCapability._on_s05f05", "C13")
+class OnS5F5:
+    """S5F5 naming 1 or 2 alarm ids (bounded shape; any ids, any table of alarms, any coincidence of the two ids): S5F6
+    lists exactly the requested alarms that exist, in request order (a repeated id twice), each with its id, its text and
+    ALCD = category code with bit 8 showing the current set state; the table itself is not touched.  The request naming no
+    id (all alarms) and longer requests: bounded pass."""
+
+    cases = [(f"n{n}", {"n": n}) for n in (1, 2)]
+    uses = [DecodeS5F5Abs, ItemGetIdsAbs, StreamFunctionAbs13, NewFunctionAbs13]
+
+    def inputs(n):
+        return {"self": Obj(GemEquipmentHandler,
+                            _alarms=MapOf(Alarm, set=Bool, enabled=Bool, code=Int(0, 127), text=Int, ce_on=Int, ce_off=Int),
+                            _settings=Obj(Settings, _streams_functions=Obj(_StreamsFunctions55, g_req=Obj(
+                                AbsItem, g_ids=FixedList(*[Int for _ in range(n)]))))),
+                "_handler": Const(None), "message": Const(None)}
+
+    def requires(self):
+        # ALCD category codes (bit 8 is the set flag)
+        ok = True
+        for i in self._settings._streams_functions.g_req.g_ids:
+            ok = ok and 0 <= self._alarms[i].code and self._alarms[i].code < 128
+        return ok
+
+    def raises():
+        return {}
+
+    def ensures(self, old, result):
+        a, a0 = self._alarms, old.self._alarms
+        ids = self._settings._streams_functions.g_req.g_ids
+        rows = result.g_value
+        want = [i for i in ids if i in a0]
+        out = {"s5f6": result.g_stream == 5 and result.g_function == 6,
+               "exactly-the-existing-requested-alarms": len(rows) == len(want),
+               "table-untouched": forall(-2 ** 63, 2 ** 64, lambda k: a[k].set == a0[k].set and a[k].enabled == a0[k].enabled)}
+        if len(rows) == len(want):
+            for j in range(len(want)):
+                out[f"row-{j}"] = (rows[j]["ALID"] == want[j] and rows[j]["ALTX"] == a0[want[j]].text
+                                   and rows[j]["ALCD"] == a0[want[j]].code + (128 if a0[want[j]].set else 0))
+        return out
